@@ -28,6 +28,7 @@ SUBJECTS = {
     "F32": "close the WebSocket stream before answering 400 to data sent ahead",
     "F33": "end an HTTP/2 stream in the same step that writes its last data",
     "F22": "report the client's close code",
+    "F38": "enforce h2_max_header_list_size",
     "F34": "a failed lifespan startup is only reported once",
     "F35": "a lifespan failure the application swallowed",
     "F36": "worker_serve returns when the lifespan app is still waiting",
